@@ -620,6 +620,15 @@ MUTANTS = [
     M("N8-4-closure-suited-builds-ofsuit", ["C05"], (TK, "RankPair::Suited(high, _) => RankPair::Suited(high, r),", "RankPair::Suited(high, _) => RankPair::Ofsuit(high, r),"), base="N8-4"),
     M("N8-4-closure-pocket-keeps-rank", ["C05"], (TK, "RankPair::Pocket(_) => RankPair::Pocket(r),", "RankPair::Pocket(p) => RankPair::Pocket(p),"), base="N8-4"),
     M("N8-4-pocket-bottom-from-king", ["C05"], (TK, "RankPair::Pocket(rank) => (rank_pair, Rank::Ace, rank),", "RankPair::Pocket(rank) => (rank_pair, Rank::King, rank),"), base="N8-4"),
+    M("leftovers-skip-covered-cells", ["C06", "C17"], (HRS, "            for kicker_rank in RankRange::inclusive(high_rank, Rank::Deuce) {\n                for high_suit in SuitRange::all() {", "            for kicker_rank in RankRange::inclusive(high_rank, Rank::Deuce) {\n                if rank_pairs.contains_key(&RankPair::Suited(high_rank, kicker_rank)) {\n                    continue;\n                }\n                for high_suit in SuitRange::all() {")),
+    M("leftovers-skip-same-suit", ["C06", "C17"], (HRS, "                    for kicker_suit in SuitRange::all() {\n                        let pair = CardPair::new(", "                    for kicker_suit in SuitRange::all() {\n                        if high_suit == kicker_suit {\n                            continue;\n                        }\n                        let pair = CardPair::new(")),
+    M("benign-O8-2-membership-match-in-loop", ["C05", "C12", "C10", "C06", "C17"], base="O8-2", benign=True),
+    M("benign-O6-3-four-tuple-predicate", ["C05", "C12"], base="O6-3", benign=True),
+    M("O8-2-pocket-le", ["C05", "C12"], (RP, "RankPair::Pocket(_) => high_suit < kicker_suit,", "RankPair::Pocket(_) => high_suit <= kicker_suit,"), base="O8-2"),
+    M("O8-2-ofsuit-lt", ["C05", "C12"], (RP, "RankPair::Ofsuit(_, _) => high_suit != kicker_suit,", "RankPair::Ofsuit(_, _) => high_suit < kicker_suit,"), base="O8-2"),
+    M("O8-2-variant-only-skip", ["C05", "C12"], (RP, "                if is_member {", "                if matches!(self, RankPair::Suited(_, _)) && high_suit == Suit::Club {\n                    continue;\n                }\n                if is_member {"), base="O8-2"),
+    M("O8-2-kicker-gets-high-suit", ["C05", "C12"], (RP, "                        Card::new(kicker, kicker_suit),", "                        Card::new(kicker, high_suit),"), base="O8-2"),
+    M("O6-3-suited-admits-all", ["C05", "C12"], (RP, "(high, kicker, 4, |left, right| left == right)", "(high, kicker, 4, |left, right| left <= right)"), base="O6-3"),
     M("benign-F3-3-computed-flush-weight", ["C01", "C07", "C08"], base="F3-3", benign=True),
     M("F3-3-unreversed", ["C01", "C07"], (MH, "1 << (12 - u8::from(card.rank()))", "1 << u8::from(card.rank())"), base="F3-3"),
     M("F3-3-off-by-one", ["C01", "C07"], (MH, "1 << (12 - u8::from(card.rank()))", "1 << (13 - u8::from(card.rank()))"), base="F3-3"),
